@@ -1377,6 +1377,9 @@ func decodeSchemaConstructs(dec *urlValuesDecoder, schemas []*openapi3.SchemaRef
 			if err != nil {
 				continue
 			}
+			if value == nil {
+				continue // the form does not carry this property
+			}
 			if existingValue, exists := obj[name]; exists && !isEqual(existingValue, value) {
 				return fmt.Errorf("conflicting values for property %q", name)
 			}
